@@ -41,8 +41,14 @@ def run(rep: core.Report):
     ok, how = symalg.is_zero(sp.simplify(e / (M * AMU) - want_q2))
     rep.instance("R19a", TD, "ThermalMotion._get_Q2", "Q2 / (m AMU) == hbar (n + 1/2) / (m w) [angstrom^2], w = 2 pi f THz", ok, f"Q2/(m AMU) = {sp.simplify(e / (M * AMU))}, expected {want_q}", line=q2.lineno, sample={"Q2": str(e)})
     init = core.find_def(TD, "ThermalMotion.__init__")
-    txt = [core.src(s) for s in ast.walk(init) if isinstance(s, ast.Assign)]
-    rep.instance("R19a", TD, "ThermalMotion.__init__", "self._masses = masses * AMU ; self._masses3 = per-component masses * AMU", "self._masses = masses * AMU" in txt and any(t.startswith("self._masses3 =") and t.endswith("* AMU") for t in txt),
+    vals = {core.src(s.targets[0]): s.value for s in ast.walk(init) if isinstance(s, ast.Assign)}
+    AMUS = sp.Symbol("AMU")
+    def has_amu_once(node):
+        if node is None:
+            return False
+        e = symalg.open_expr(core.src(node))
+        return e.has(AMUS) and not sp.simplify(e / AMUS).has(AMUS)
+    rep.instance("R19a", TD, "ThermalMotion.__init__", "self._masses and self._masses3 carry one factor AMU", has_amu_once(vals.get("self._masses")) and has_amu_once(vals.get("self._masses3")),
                  "the masses dividing Q2 are not in kg (AMU factor)", line=init.lineno)
     # RandomDisplacements
     rinit = core.find_def(RD, "RandomDisplacements.__init__")
@@ -105,16 +111,67 @@ def run(rep: core.Report):
     # R19c
     sii = core.find_def(RD, "RandomDisplacements._solve_ii")
     sij = core.find_def(RD, "RandomDisplacements._solve_ij")
-    r_ii = [core.src(r.value) for r in ast.walk(sii) if isinstance(r, ast.Return)]
-    r_ij = [core.src(r.value) for r in ast.walk(sij) if isinstance(r, ast.Return)]
-    rep.instance("R19c", RD, "RandomDisplacements._solve_ii", f"return {r_ii}", r_ii == ["(u, conditions)"], "the q = -q+G contribution carries an extra factor", line=sii.lineno)
-    rep.instance("R19c", RD, "RandomDisplacements._solve_ij", f"return {r_ij}", r_ij == ["(u * np.sqrt(2), conditions)"], "the conjugate-pair contribution is not multiplied by sqrt(2)", line=sij.lineno)
-    acc = [core.src(s) for s in ast.walk(sij) if isinstance(s, ast.AugAssign)]
-    rep.instance("R19c", RD, "RandomDisplacements._solve_ij", str(acc), acc == ["u += (u_red[0] * phase).real", "u -= (u_red[1] * phase).imag"], "the two normal variates of a conjugate pair are not combined as Re - Im with the complex phase", line=sij.lineno)
+    def first_ret(fn):
+        rets = [r.value for r in ast.walk(fn) if isinstance(r, ast.Return) and r.value is not None]
+        if len(rets) != 1:
+            raise AnalysisError(f"R19c: {fn.name}: expected one return")
+        v = rets[0].elts[0] if isinstance(rets[0], ast.Tuple) else rets[0]
+        return v, symalg.open_expr(core.src(v))
+
+    v_ii, e_ii = first_ret(sii)
+    v_ij, e_ij = first_ret(sij)
+    rep.instance("R19c", RD, "RandomDisplacements._solve_ii", f"returns {core.src(v_ii)}", symalg.same(e_ii, symalg.open_expr("u"))[0], "the q = -q+G contribution carries an extra factor", line=sii.lineno)
+    rep.instance("R19c", RD, "RandomDisplacements._solve_ij", f"returns {core.src(v_ij)}", symalg.same(e_ij, symalg.open_expr("u * np.sqrt(2)"))[0], "the conjugate-pair contribution is not multiplied by sqrt(2)", line=sij.lineno)
+    trj = symalg.OpenPyTranslator(where="RandomDisplacements._solve_ij")
+    trj.summary(sij)
+    acc = trj.appends.get("aug:u", [])
+    parts = []
+    for op, val in acc:
+        part = getattr(val.func, "__name__", str(val.func)) if val.args else None
+        inner = val.args[0] if val.args else None
+        comp = None
+        base = None
+        has_phase = False
+        if inner is not None:
+            for f in sp.Mul.make_args(inner):
+                if f == sp.Symbol("phase"):
+                    has_phase = True
+                elif f.args and str(f.func).endswith("[]") and len(f.args) == 1 and f.args[0].is_Integer:
+                    comp, base = int(f.args[0]), str(f.func)
+        parts.append((op, part, comp, base, has_phase))
+    shape_ok = sorted((o, p, c) for o, p, c, _, _ in parts) == [("Add", ".real", 0), ("Sub", ".imag", 1)] and len({b for *_, b, _ in parts}) == 1 and all(h for *_, h in parts)
+    rep.instance("R19c", RD, "RandomDisplacements._solve_ij", f"u accumulates {[(o, p, c) for o, p, c, _, _ in parts]} of (variate * phase)", shape_ok,
+                 "the two normal variates of a conjugate pair are not combined as Re(x0 phase) - Im(x1 phase) with the complex phase", line=sij.lineno)
     prep = core.find_def(RD, "RandomDisplacements._prepare")
-    t = core.src(prep)
-    rep.instance("R19c", RD, "RandomDisplacements._prepare", "ii points: D-type matrix and cos phase; ij points: C-type matrix and exp phase", "self._comm_points[self._ii]" in t and "self._comm_points[self._ij]" in t and "np.cos(2 * np.pi * np.dot(self._lpos, q))" in t and "np.exp(2j * np.pi * np.dot(self._spos, q))" in t,
-                 "the two classes of commensurate points are not treated with real / complex phases respectively", line=prep.lineno)
+    trp = symalg.OpenPyTranslator(where="RandomDisplacements._prepare")
+    trp.summary(prep)
+    want = {
+        "self._phase_ii": "np.cos(2 * np.pi * np.dot(self._lpos, q)).reshape(-1, 1)",
+        "self._phase_ij": "np.exp(2j * np.pi * np.dot(self._spos, q)).reshape(-1, 1)",
+        "self._eigvecs_ii": "np.linalg.eigh(self._C_to_D(self._dynmat.dynamical_matrix, q))[1]",
+        "self._eigvecs_ij": "np.linalg.eigh(self._dynmat.dynamical_matrix)[1]",
+    }
+    loops = {core.src(lp.iter).split("[")[1].split("]")[0] for lp in ast.walk(prep) if isinstance(lp, ast.For) and "self._comm_points[" in core.src(lp.iter)}
+    okp = loops == {"self._ii", "self._ij"}
+    bad = []
+    for k, wtxt in want.items():
+        got = trp.appends.get(k, [])
+        w = symalg.open_expr(wtxt)
+        if len(got) != 1:
+            bad.append(f"{k}: {len(got)} appends")
+            continue
+        g = got[0]
+        if k.startswith("self._eigvecs"):
+            # item1(f(x)) is the translator's form of `_, v = f(x)`; compare the call inside
+            inner_g = g.args[0] if g.args and str(g.func) == "item1" else g
+            inner_w = symalg.open_expr(wtxt[: -len("[1]")])
+            ok1 = symalg.same(inner_g, inner_w)[0]
+        else:
+            ok1 = symalg.same(g, w)[0]
+        if not ok1:
+            bad.append(f"{k} = {core.norm(str(g), 80)}")
+    rep.instance("R19c", RD, "RandomDisplacements._prepare", "ii points: D-type matrix and cos phase of lattice-point positions; ij points: C-type matrix and exp phase of atomic positions", okp and not bad,
+                 f"the two classes of commensurate points are not treated with real / complex phases respectively ({'; '.join(bad) or 'loops over ' + str(sorted(loops))})", line=prep.lineno)
     part = [s for s in ast.walk(core.find_def(RD, "RandomDisplacements._setup_sampling_qpoints")) if isinstance(s, ast.Assign) and "categorize_commensurate_points" in core.src(s.value)]
     rep.instance("R19c", RD, "RandomDisplacements._setup_sampling_qpoints", core.src(part[0]) if part else "<vanished>", len(part) == 1 and core.src(part[0].targets[0]) == "(self._ii, self._ij)", "the ii/ij partition is not computed once by categorize_commensurate_points", line=part[0].lineno if part else 0)
 
@@ -172,5 +229,9 @@ def selftest():
     b("sqrt(2) dropped", RD, "        return u * np.sqrt(2), conditions", "        return u, conditions", "R19c", "_solve_ij")
     b("imaginary part added", RD, "            u -= (u_red[1] * phase).imag", "            u += (u_red[1] * phase).imag", "R19c", "_solve_ij")
     b("supercell positions converted with the transposed matrix", RD, "        tmat = np.dot(supercell.cell, np.linalg.inv(primitive.cell))", "        tmat = np.dot(supercell.cell, np.linalg.inv(primitive.cell)).T", "R19d", "__init__")
+    n("sqrt(2) written first", RD, "        return u * np.sqrt(2), conditions", "        return np.sqrt(2) * u, conditions")
+    n("phase written first in the pair accumulation", RD, "            u += (u_red[0] * phase).real", "            u += (phase * u_red[0]).real")
+    b("pair accumulation adds the imaginary part", RD, "            u -= (u_red[1] * phase).imag", "            u += (u_red[1] * phase).imag", "R19c", "_solve_ij")
+    b("ij phase evaluated at lattice points", RD, "np.exp(2j * np.pi * np.dot(self._spos, q)).reshape(-1, 1)", "np.exp(2j * np.pi * np.dot(self._lpos, q)).reshape(-1, 1)", "R19c", "_prepare")
     n("Q2 factors reordered", TD, "            Hbar\n            * EV\n            / Angstrom**2", "            EV\n            * Hbar\n            / Angstrom**2")
     return V
